@@ -7,6 +7,7 @@ real variable per (prefix, character): an arbitrary history-dependent LM.
 lm_scale in [0, 3] and insertion_bonus >= 0 are symbolic reals.
 """
 import itertools
+import os
 import z3
 
 from symx import core
@@ -162,6 +163,8 @@ class StubLM:
 def run_task(task, patches=None):
     H = Harness(patches, timeout_ms=60000)
     H.ctx.lazy_products = True
+    # path conditions are polynomial (products over frames times exp terms): a branch that the linear literals alone decide is not sent to the full solver
+    H.ctx.light_first = not os.environ.get("NO_LIGHT")
     if task['mode'] == 'bag':
         return _run_bag(H, task)
     dec = H.load('pero_ocr.decoding.decoders')
@@ -403,7 +406,8 @@ def canaries(tier):
     return [
         {'name': 'LM predictions not permuted with the beam',
          'patches': [(_D, '    lm_preds_new = lm_preds[best_inds_l[0]]\n', '    lm_preds_new = lm_preds[:len(best_inds_l[0])].copy() if len(lm_preds) >= len(best_inds_l[0]) else lm_preds[best_inds_l[0]]\n')],
-         'tasks': [t for t in q if t['k'] >= 2 and t['T'] >= 2]},
+         # stale predictions are consumed one frame later: three frames are needed
+         'tasks': [t for t in tasks('quick') if t['mode'] == 'lm' and t['T'] == 3 and t['k'] >= 2 and not t['eos']]},
         {'name': 'Plm not selected with the beam',
          'patches': [(_D, '                Plm = total_Plm[best_inds]\n', '                Plm = total_Plm[best_inds[0], 0]\n')], 'tasks': q},
         {'name': 'insertion bonus also added when the prefix is not extended',
